@@ -342,8 +342,27 @@ func (p *Program) installOS() {
 	in["github.com/RoaringBitmap/roaring.symCard"] = func(fr *frame, a []Value) Value { return fr.m.card(a[0].(*Term)) }
 	in["github.com/RoaringBitmap/roaring.symSize"] = func(fr *frame, a []Value) Value { return fr.m.sizeUF(a[0].(*Term)) }
 	in["github.com/RoaringBitmap/roaring.symSerSize"] = func(fr *frame, a []Value) Value {
-		r := UF("bmsersize", 64, a[0].(*Term))
-		fr.m.assertPC(Cmp(OpUlt, r, K(64, 1<<40)))
+		m := fr.m
+		bits := a[0].(*Term)
+		if sh, ok := m.bmShapes[bits.name]; ok && bits.op == OpVar {
+			// a bitmap from verifSizedBitmap: the serialised size the real library reports for
+			// that construction. Run containers (k = 1..3 containers of one run each):
+			// 5 + 10k bytes against 8 + 30k in memory. Array containers: 6 bytes more per
+			// container than in memory (8194 bytes in memory per full container).
+			m.nseq++
+			nc := Var(fmt.Sprintf("v%d_ncont", m.nseq), 64)
+			m.vars[nc.name] = 64
+			body := Bin(OpSub, sh.sz, K(64, 8))
+			m.assume(BAnd(Cmp(OpUle, nc, K(64, 200)),
+				BAnd(Cmp(OpUle, body, Bin(OpMul, K(64, 8194), nc)),
+					BOr(Cmp(OpEq, nc, K(64, 0)), Cmp(OpUlt, Bin(OpMul, K(64, 8194), Bin(OpSub, nc, K(64, 1))), body)))))
+			arr := Bin(OpAdd, sh.sz, Bin(OpMul, K(64, 6), nc))
+			run := Ite(Cmp(OpEq, sh.sz, K(64, 38)), K(64, 15), Ite(Cmp(OpEq, sh.sz, K(64, 68)), K(64, 25), K(64, 35)))
+			m.noteOnce("model: serialised sizes of harness-built bitmaps follow the real library's layout (array containers +6 bytes each; one-run containers 5+10k)")
+			return Ite(sh.isRun, run, arr)
+		}
+		r := UF("bmsersize", 64, bits)
+		m.assertPC(Cmp(OpUlt, r, K(64, 1<<40)))
 		return r
 	}
 	in["github.com/RoaringBitmap/roaring.symIsConcrete"] = func(fr *frame, a []Value) Value {
@@ -390,9 +409,17 @@ func (p *Program) installVerifModels() {
 		m.vars[bits.name] = 64
 		// sizes real roaring bitmaps built from array containers can have (up to 1 MiB)
 		fam := BOr(Cmp(OpEq, sz, K(64, 8)), BAnd(Cmp(OpUle, K(64, 12), sz), Cmp(OpEq, Extract(sz, 0, 1), K(1, 0))))
+		// sizes 38, 68 and 98 stand for bitmaps of 1..3 run containers of one run each
+		// (8 + 30k bytes in memory, much smaller when serialised), every other size for
+		// array containers
+		isRun := BOr(Cmp(OpEq, sz, K(64, 38)), BOr(Cmp(OpEq, sz, K(64, 68)), Cmp(OpEq, sz, K(64, 98))))
 		m.assume(BAnd(fam, Cmp(OpUle, sz, K(64, 1<<20))))
 		m.assertPC(Cmp(OpEq, m.sizeUF(bits), sz))
-		m.noteOnce("bound: bitmap sizes range over {8} ∪ {even 12..2^20} (array-container bitmaps), bound to the bitmap through the uninterpreted size function")
+		if m.bmShapes == nil {
+			m.bmShapes = map[string]bmShape{}
+		}
+		m.bmShapes[bits.name] = bmShape{sz: sz, isRun: isRun}
+		m.noteOnce("bound: bitmap sizes range over {8} ∪ {even 12..2^20} (array-container bitmaps; 38, 68 and 98: run-container bitmaps), bound to the bitmap through the uninterpreted size function")
 		return oneWord(bits)
 	}
 	v["verifFileKind"] = func(fr *frame, a []Value) Value {
